@@ -11,6 +11,7 @@ from loki.ir import nodes as ir, FindNodes, FindInlineCalls
 from loki.tools import flatten, as_tuple, OrderedSet
 
 from loki.transformations.array_indexing import demote_variables
+from loki.transformations.single_column.devector import subscripts_or_shape
 from loki.transformations.utilities import get_local_arrays
 
 
@@ -94,7 +95,7 @@ class SCCDemoteTransformation(Transformation):
 
         call_args = [
             p.clone(dimensions=None) for p in _params
-            if any(s in (p.dimensions or p.shape) for s in horizontal.size_expressions)
+            if any(s in subscripts_or_shape(p) for s in horizontal.size_expressions)
         ]
 
         # Filter out variables that we will pass down the call tree
